@@ -591,14 +591,14 @@ func init() {
 // C20: histories on one long-lived engine
 
 type histOp struct {
-	Kind string `json:"kind"` // query | failing | cancelled | fallback | append-sample | append-series
+	Kind string `json:"kind"` // query | query-lookback | failing | instant | instant-failing | cancelled | fallback | append-sample | append-series
 	Q    string `json:"q,omitempty"`
 }
 
 var histOps = []histOp{
 	{"query", `a`}, {"query", `sum by (l) (rate(a[1m]))`}, {"query", `a + on (l) group_left b`}, {"query", `topk(1, a) + scalar(sum(b))`},
 	{"query", `h_bucket`}, {"query", `histogram_quantile(0.5, h_bucket)`}, {"query-lookback", `a`},
-	{"failing", `a + on (l) b`}, {"cancelled", `sum by (l) (a)`}, {"fallback", `count_values("v", a)`}, {"append-sample", ""}, {"append-series", ""},
+	{"failing", `a + on (l) b`}, {"instant", `abs(a)`}, {"instant-failing", `abs({__name__=~"a|b"})`}, {"cancelled", `sum by (l) (a)`}, {"fallback", `count_values("v", a)`}, {"append-sample", ""}, {"append-series", ""},
 }
 
 type kept struct {
@@ -630,8 +630,15 @@ func runHistory(ops []histOp, pool string) (sym, det string, evals int64) {
 	var keptRes []kept
 	appended := 0
 	var qopts *promql.QueryOpts
+	instant := false
 	exec := func(e rangeEngine, q string, cancelIt bool) (*promql.Result, promql.Query, error) {
-		qq, err := e.NewRangeQuery(st, qopts, q, time.UnixMilli(w.Start).UTC(), time.UnixMilli(w.End).UTC(), time.Duration(w.Step)*time.Millisecond)
+		var qq promql.Query
+		var err error
+		if instant {
+			qq, err = e.NewInstantQuery(st, qopts, q, time.UnixMilli(100000).UTC())
+		} else {
+			qq, err = e.NewRangeQuery(st, qopts, q, time.UnixMilli(w.Start).UTC(), time.UnixMilli(w.End).UTC(), time.Duration(w.Step)*time.Millisecond)
+		}
 		if err != nil {
 			return nil, nil, err
 		}
@@ -658,6 +665,7 @@ func runHistory(ops []histOp, pool string) (sym, det string, evals int64) {
 				Samples: []mstore.Sample{{T: 0, V: 1000 * float64(appended)}, {T: 60000, V: 1000*float64(appended) + 1}, {T: 240000, V: 7}}})
 		default:
 			qopts = nil
+			instant = strings.HasPrefix(op.Kind, "instant")
 			if op.Kind == "query-lookback" {
 				// a per-query lookback shorter than the gap of the series appended later
 				qopts = &promql.QueryOpts{LookbackDelta: 20 * time.Second}
@@ -719,6 +727,7 @@ func runHistory(ops []histOp, pool string) (sym, det string, evals int64) {
 
 type rangeEngine interface {
 	NewRangeQuery(q storage.Queryable, opts *promql.QueryOpts, qs string, start, end time.Time, interval time.Duration) (promql.Query, error)
+	NewInstantQuery(q storage.Queryable, opts *promql.QueryOpts, qs string, ts time.Time) (promql.Query, error)
 }
 
 func init() {
